@@ -354,7 +354,7 @@ func Related(p oracle.Pt, other oracle.Pt) []PV {
 	e := oracle.Endo(p)
 	e2 := oracle.Endo(e)
 
-	return []PV{
+	out := []PV{
 		{oracle.Inf(), "O"},
 		{p, "P"},
 		{oracle.Neg(p), "-P"},
@@ -366,6 +366,16 @@ func Related(p oracle.Pt, other oracle.Pt) []PV {
 		{oracle.Neg(e2), "-phi2P"},
 		{other, "unrelated"},
 	}
+
+	// the finite points with the opposite abscissa, where -x is on the curve (about half of all P): X1*Z2 + X2*Z1 vanishes
+	// for them although neither operand is the identity and P != +-Q
+	if !p.IsInf() {
+		if q, ok := oracle.LiftX(oracle.FNeg(p.X), 0); ok {
+			out = append(out, PV{q, "negx"}, PV{oracle.Neg(q), "-negx"})
+		}
+	}
+
+	return out
 }
 
 // ScalarSpecials is the deterministic list of notable scalars for multiplication workloads.
